@@ -453,6 +453,14 @@ fn normalise(b: &Built, res: &RunResult, raw: bool, hot: &HashSet<i64>) -> (Vec<
         Outcome::Done => {}
         Outcome::Unstuck(who) => tail.push(Obj::new("was_stuck").int("t", 0).int("d", 0).str("who", who).done()),
         Outcome::Deadlock => tail.push(Obj::new("deadlock").int("t", 0).int("d", 0).int("hdepth", res.stuck.iter().map(|s| s.1 as i64).max().unwrap_or(0)).done()),
+        Outcome::Lasso(why) => tail.push(
+            Obj::new("livelock")
+                .int("t", 0)
+                .int("d", 0)
+                .int("hdepth", res.stuck.iter().map(|s| s.1 as i64).max().unwrap_or(0))
+                .str("why", why)
+                .done(),
+        ),
         Outcome::Livelock | Outcome::StepLimit => tail.push(Obj::new("livelock").int("t", 0).int("d", 0).int("hdepth", res.stuck.iter().map(|s| s.1 as i64).max().unwrap_or(0)).done()),
         Outcome::Aborted(r) => tail.push(Obj::new("aborted").int("t", 0).int("d", 0).str("why", r).done()),
     }
@@ -570,6 +578,7 @@ pub fn main(args: &Args) -> i32 {
             _ => vec![0],
         };
         cfg.deliver_at_start = false;
+        cfg.post_points = args.flag("post-points");
         cfg.handler_atomic = args.flag("handler-atomic");
         cfg.preemption_bound = args.get("preempt").map(|s| s.parse().unwrap());
         // Slots of signals nobody watches or delivers are private to the consumer's scan.
@@ -605,9 +614,24 @@ pub fn main(args: &Args) -> i32 {
             sched::run(bodies, &mut dfs, &cfg)
         };
         drop(cfg);
+        // Everything of the instance is gone now (the consumer dropped it, the other threads
+        // dropped their handles, ours goes here): what is left in the registry is a leak.
+        let done = matches!(res.outcome, Outcome::Done | Outcome::Unstuck(_));
+        let leftover = if done {
+            drop(handle);
+            let (sigs, _) = verif::registry_content();
+            sigs.iter().map(|(_, a)| a.len() as i64).sum::<i64>()
+        } else {
+            std::mem::forget(handle);
+            -1
+        };
+        let handle = SignalsInfo::<SignalOnly>::new(&[] as &[c_int]).unwrap().handle();
         let b = Built { bodies: Vec::new(), locs, handle, slots_base, slot_size, read_fd };
         let hot64: HashSet<i64> = hot.iter().chain(extra.iter()).map(|s| *s as i64).collect();
-        let (fine, abs) = normalise(&b, &res, scn.raw, &hot64);
+        let (fine, mut abs) = normalise(&b, &res, scn.raw, &hot64);
+        if leftover >= 0 {
+            abs.push(Obj::new("final_actions").int("t", 0).int("d", 0).int("n", leftover).done());
+        }
         if matches!(res.outcome, Outcome::Unstuck(_)) {
             stuck_runs += 1;
         }
